@@ -112,4 +112,12 @@ TEXT = {
         "note": COMMON_NOTE + "Mutation through a receiver is a runtime effect no pure model exhibits; the claim rests on the reflection harness, the theorems state its content.",
         "technique": "Coq statement over state transformers (shallow) + reflection-driven call-sequence harness on the real code",
     },
+    "C09": {
+        "text": "Theorems for the domain-name decoder (where the unbounded expansion was): for every accepted input each name is <= 253 octets and there is at most one name per input "
+                "octet, and the total number of loop iterations including all pointer excursions is <= 257 per input octet (cost semantics with explicit constants). For whole messages "
+                "the bound of the property (size <= 300 n + 4096; decode+re-encode allocation <= 1500 n + depth n + 4096) is measured on the real code over adversarial families up to "
+                "65 507 octets and by hill climbing.",
+        "note": COMMON_NOTE + "Partial: allocator behaviour cannot be proved in the model; only the name decoder's size/work bounds are theorems, message-level bounds are measurements with explicit constants.",
+        "technique": "Coq proof (size and step-count bounds of the name decoder) + allocation/deep-size measurement harness with adversarial families and hill climbing",
+    },
 }
